@@ -38,8 +38,15 @@ def exhaustive(tier):
 
 
 def small_cfg(rng, mode=None):
-    return dict(jac=mode or gen.pick(rng, ["callable", "callable", None, "2-point"]), maxcor=int(rng.integers(1, 6)),
-                maxls=int(gen.pick(rng, [3, 5, 20])), maxiter=int(rng.integers(2, 7)), ftol=0.0, gtol=1e-10, maxfun=500)
+    cfg = dict(jac=mode or gen.pick(rng, ["callable", "callable", None, "2-point", "3-point"]), maxcor=int(rng.integers(1, 6)),
+               maxls=int(gen.pick(rng, [3, 5, 20])), maxiter=int(rng.integers(2, 7)), ftol=0.0, gtol=1e-10, maxfun=500)
+    if cfg["jac"] != "callable":
+        # non-default differencing settings: anything they leave behind must not leak into another run
+        cfg["eps"] = float(gen.pick(rng, [1e-8, 1e-6, 1e-4, 1e-2]))
+        cfg["finite_diff_rel_step"] = gen.pick(rng, [None, None, 1e-7, 1e-3])
+    if mode is None and rng.random() < 0.15:
+        cfg["ftarget"] = 1e300  # already met at x0: the early-return path (no gradient is ever computed)
+    return cfg
 
 
 def cases(tier, seed):
